@@ -35,11 +35,11 @@ LEVEL_TEXT = ("Lean theorems for ALL finalizer lists / fn sequences / decision i
               "add_remove_on_match are full theorems. never_early is FALSE of the code (findings F5, F5b): proved are "
               "never_early_partial / never_early_inv_partial under the exact guard (no 422 on a JSON patch that carries a removal; "
               "no foreign write between a removal decision and the cycle's own merge patch), the negation never_early_fails and the "
-              "two witnesses stale_release_witness / stale_release_via_merge_witness, both replayed on the real operator every run.")
+              "witnesses stale_release_witness / stale_release_via_merge_witness (and the benign mirror stale_add_witness, F5c), all replayed on the real operator every run.")
 THEOREMS = [("Kopf.Props.C06", "Kopf.C06." + n) for n in [
     "foreign_untouched", "order_preserved", "block_spec", "allow_spec", "block_idempotent", "allow_idempotent",
     "allow_after_block", "patch_is_fn_of_tested", "foreign_untouched_lts", "decision_spec", "decision_fns",
-    "never_early_partial", "never_early_inv_partial", "stale_release_witness", "stale_release_via_merge_witness",
+    "never_early_partial", "never_early_inv_partial", "stale_release_witness", "stale_release_via_merge_witness", "stale_add_witness",
     "never_early_fails", "released_eventually", "add_on_match", "remove_on_mismatch", "add_remove_on_match"]]
 TIE_THEOREMS = [("Kopf.Tie.C06", "Kopf.C06.Tie." + n) for n in [
     "mustBlock_eq", "add_eq", "remove_eq", "early_eq", "release_eq", "effects_eq", "decision_eq"]]
@@ -288,7 +288,7 @@ def run_lists(ctx: Ctx) -> None:
                 ctx.oracle_fail("the finalizer fns changed something outside metadata", {"body": body, "ops": ops},
                                 {"site": "Patch.as_json_patch", "shape": "foreign fields touched"})
         key = {"l": [("own" if x == f else "o") for x in l], "fns": fns, "mode": mode, "shape": shape}
-        ctx.case(key=key, nontrivial=got != l, sample={"finalizer": f, "list": l, "fns": fns, "mode": mode, "impl": got} if k < 3 else None)
+        ctx.case(key=key, nontrivial=got != l, sample={"finalizer": f, "list": l, "fns": fns, "mode": mode, "impl": got} if k < 2 else None)
         # oracle, from the statement: foreign ones exactly as before, in order; own present/absent as the last fn says
         if [x for x in got if x != f] != [x for x in l if x != f]:
             ctx.oracle_fail("foreign finalizers were added, dropped or reordered", {"finalizer": f, "list": l, "fns": fns, "mode": mode, "got": got},
